@@ -241,6 +241,32 @@ def parser_streams(check):
     sts.append(Stream("ini-self-referential", [G.ini_op(0x3d, d, INI_ENV) for d in self_ref_docs()]))
     sts.append(Stream("ini-include-files", [G.inif_op(d[2] if len(d) > 2 else 0x3d, d[0], d[1])
                                             for d in include_docs(rng, 600 if tier == "quick" else 15000)]))
+    # unusual separator characters: qconfig hands sepchar to _q_makeword unchanged ('\0': the terminator is
+    # the stop byte; '#', '[': also the comment / section marks; blank: eaten by the trimming)
+    ops = []
+    for sepc in (0x3d, 0x3a, 0x20, 0x00, 0x23, 0x5b):
+        for ln in range(0, 5 if tier == "quick" else 6):
+            for t in itertools.product(b"=:#[ a\n]", repeat=ln):
+                d = bytes(t)
+                ops.append(G.ini_op(sepc, d, {}))
+                if ln >= 3 and d[:1] != b"\n":
+                    ops.append(G.inif_op(sepc, b"/V/m", {b"/V/m": d}))
+        for d in (b"[s]\nk=v\n", b"[ s ]\n[]\nk:v\n", b"k v\n[s x]\nj  w\n", b"#c\n[#]\nk#v\n[[]\n[k[v]\n", b"a${b}\nb=1\n"):
+            ops.append(G.ini_op(sepc, d, {}))
+            ops.append(G.inif_op(sepc, b"m", {b"m": b"@INCLUDE i\n" + d, b"./i": d}))
+    sts.append(Stream("ini-separators", ops))
+    # lines that merely look like an include directive (only `@INCLUDE ` + path at the beginning of a line is one)
+    look = [b"@INCLUDES = a b\n", b"@INCLUDE_DIR = /etc\n", b"@INCLUDE=x\n", b"@INCLUDE\n", b"@INCLUDE", b"@INCLUDE\tinc\n",
+            b" @INCLUDE inc\n", b"\t@INCLUDE inc\n", b"#@INCLUDE inc\n", b"# @INCLUDE inc\n", b"k=v @INCLUDE inc\n",
+            b"@include inc\n", b"@Include inc\n", b"@INCLUDE  inc\n", b"@INCLUDE \tinc\n", b"@INCLUDEinc\n", b"x@INCLUDE inc\n",
+            b"@INCLUDE inc\n@INCLUDES=1\n", b"[s]\n@INCLUDE.d=1\n@INCLUDE inc\n"]
+    ops = []
+    for d in look:
+        for main in (b"/V/m", b"m"):
+            files = {main: b"a=1\n" + d + b"z=2\n", b"/V/inc": b"k=inc\n", b"./inc": b"k=rel\n"}
+            ops.append(G.inif_op(0x3d, main, files))
+            ops.append(G.inif_op(0x3d, main, {main: d, b"/V/inc": b"k=inc\n", b"./inc": b"k=rel\n"}))
+    sts.append(Stream("ini-directive-lookalikes", ops))
     sts.append(Stream("ini-spliced-cycles", [G.ini_op(0x3d, d, {**INI_ENV, b"E": b"$"})
                                              for d in spliced_cycle_docs(rng, 150 if tier == "quick" else 3000)]))
     tbl = AC_TABLES[0]
